@@ -22,6 +22,7 @@ from .base import Adapter, points_for, with_ids
 
 
 class SVRP(Adapter):
+    reward_from_actions = True
     name = "svrp"
     module = "SVRP"
     pad_steps = 0
